@@ -154,7 +154,14 @@ class Endpoint:
         return self.adv.frame(f)
 
     def queries(self, qsids):
-        conn = self.conn
+        return queries_of(self.conn, qsids)
+
+    def zstate(self):
+        return zstate_of(self.conn)
+
+
+def queries_of(conn, qsids):
+    if True:
         q = {}
         lw, rw = [], []
         for sid in qsids:
@@ -173,11 +180,11 @@ class Endpoint:
         q['mif'] = conn.max_inbound_frame_size
         return q
 
-    def zstate(self):
+def zstate_of(conn):
+    if True:
         """Read-only projection of the connection's internal state in the shape of the model's Z(ep).
         Every component is read defensively: a component that cannot be read (renamed attribute after a
         refactoring) is reported as the string 'unreadable' and is then not compared."""
-        conn = self.conn
         BY = {'SEND_END_STREAM': 'SES', 'RECV_END_STREAM': 'RES', 'SEND_RST_STREAM': 'SRST', 'RECV_RST_STREAM': 'RRST'}
 
         def tri(v):
